@@ -160,12 +160,23 @@ InsertVoice == \E i \in 1..(Len(file) + 1), shp \in ShapeSet :
                  /\ nextId' = nextId + 1
 DeleteVoice == \E i \in 1..Len(file) : Len(file) > 1 /\ Swap(RemoveAt(file, i), "delete") /\ UNCHANGED nextId
 (* one save that carries two edits: a voice is deleted and a new one inserted elsewhere (the number of voices stays, *)
-(* the survivors change their positions); two voices are deleted at once                                          *)
+(* the survivors change their positions); two voices are deleted at once.  The new voice is not of the deleted      *)
+(* voice's shape and shares no kind of state cell with it: otherwise the save can just as well be read as "the     *)
+(* voice moved and was edited" (its cells carried into the new voice, the other voice being the one that changed   *)
+(* place), and which of two voices that swapped places is the untouched one is not for the property to say.        *)
+CellKinds(sh) == CASE sh \in {"counter", "deepc"} -> {"feed1"}
+                    [] sh = "lagv" -> {"mem"}
+                    [] sh = "dlv" -> {"delay"}
+                    [] sh = "nestv" -> {"feed1", "mem"}
+                    [] sh = "paccv" -> {"feed2"}
+                    [] sh \in {"idl", "idl2"} -> {"feed1", "delay", "mem"}
+                    [] OTHER -> {"feed1", "feed2", "mem", "delay"}
 DeleteInsert == \E i \in 1..Len(file), j \in 1..Len(file), shp \in ShapeSet :
-                  /\ Len(file) > 1 /\ i # j
+                  /\ ~Live      \* (the live layer keeps its single-edit saves: its subject is the queue of versions)
+                  /\ Len(file) > 1 /\ i # j /\ CellKinds(shp) \cap CellKinds(file[i].shape) = {}
                   /\ Swap(InsertAt(RemoveAt(file, i), j, [id |-> nextId, shape |-> shp, k |-> 2, chan |-> "B"]), "delete_insert")
                   /\ nextId' = nextId + 1
-DeleteTwo == \E i, j \in 1..Len(file) : i < j /\ Len(file) > 2
+DeleteTwo == \E i, j \in 1..Len(file) : ~Live /\ i < j /\ Len(file) > 2
                   /\ Swap(RemoveAt(RemoveAt(file, j), i), "delete_two") /\ UNCHANGED nextId
 ReplaceVoice == \E i \in 1..Len(file), shp \in ShapeSet :
                   /\ shp # file[i].shape
